@@ -73,6 +73,24 @@ else:
     _main.installReactor(reactor)
     reactor.advance(EPOCH)
 
+# Twisted prints log.err() failures to stderr when logging was never started;
+# the code under test logs expected, handled errors that way.  Collect instead.
+from twisted.logger import globalLogBeginner  # noqa: E402
+
+logged_failures = []
+
+
+def _observer(event):
+    if event.get("isError") or event.get("log_failure") is not None:
+        if len(logged_failures) < 1000:
+            logged_failures.append(str(event.get("log_failure") or event.get("why") or "")[:300])
+
+
+try:
+    globalLogBeginner.beginLoggingTo([_observer], redirectStandardIO=False, discardBuffer=True)
+except Exception:
+    pass
+
 # ------------------------------------------------------ eventual-send queue
 import foolscap.eventual as _fe  # noqa: E402
 from twisted.internet import defer  # noqa: E402
